@@ -52,11 +52,11 @@ def setup(ctx):
     """Load host keys, name table, class->kex-name map (once per process)."""
     if _state:
         return _state
-    import sys
-    gdir = os.path.join(os.path.dirname(os.path.dirname(os.path.abspath(__file__))), "gen")
-    if gdir not in sys.path:
-        sys.path.insert(0, gdir)
-    import c05 as gen
+    import importlib.util
+    gpath = os.path.join(os.path.dirname(os.path.dirname(os.path.abspath(__file__))), "gen", "c05.py")
+    spec = importlib.util.spec_from_file_location("gen_c05_names", gpath)
+    gen = importlib.util.module_from_spec(spec)
+    spec.loader.exec_module(gen)
     import paramiko
     from paramiko import Transport, RSAKey, ECDSAKey, Ed25519Key
     sup = os.path.join(ctx.repo, "tests", "_support")
@@ -88,6 +88,10 @@ def setup(ctx):
                 self.seen_kex = type(self.kex_engine) if self.kex_engine is not None else None
 
     _state["Recording"] = Recording
+    import logging
+    lg = logging.getLogger("paramiko")
+    lg.addHandler(logging.NullHandler())
+    lg.propagate = False
     return _state
 
 
@@ -137,8 +141,15 @@ def gen_cfg(rng, role, st):
         else:
             k = rng.randrange(1, min(len(table), 7) + 1)
             prefs[c] = rng.sample(table, k)
+    from paramiko import Transport
+    marker_pref = rng.random() < 0.12
+    if marker_pref:
+        # a local kex preference tuple that itself names a marker (assigned directly, SecurityOptions
+        # would refuse it): the stripping of the peer's list is what keeps it from being selected
+        base = list(prefs["kex"] if prefs["kex"] is not None else Transport._preferred_kex)
+        base.insert(rng.choice([0, 0, rng.randrange(len(base) + 1)]), rng.choice(MARKERS))
+        prefs["kex"] = base
     for c in CATS:
-        from paramiko import Transport
         base = list(prefs[c] if prefs[c] is not None else getattr(Transport, "_preferred_" + c))
         mode = rng.random()
         if mode < 0.3:
@@ -165,8 +176,9 @@ def gen_cfg(rng, role, st):
             skeys = [rng.choice(names)]
         else:
             skeys = rng.sample(names, rng.randrange(1, len(names) + 1))
-    return {"prefs": prefs, "disabled": dis, "skeys": skeys, "moduli": rng.random() < 0.5,
-            "strict": rng.random() < 0.75}
+    # (a server without moduli re-assigns the kex tuple through SecurityOptions, which rejects unknown names)
+    moduli = True if (marker_pref and role == "Server") else rng.random() < 0.5
+    return {"prefs": prefs, "disabled": dis, "skeys": skeys, "moduli": moduli, "strict": rng.random() < 0.75}
 
 
 def gen_peer(rng, st, adv):
@@ -199,8 +211,10 @@ def gen_peer(rng, st, adv):
             nmark = rng.choice([0, 1, 1, 2, 2, 3])
         elif rng.random() < 0.15:
             nmark = 1                                                    # marker in a non-kex list
+        ownm = [n for n in adv[i] if is_marker(n)]
         for _ in range(nmark):
-            l.insert(rng.randrange(len(l) + 1), rng.choice(MARKERS + ["ext-info-x", "kex-strict-zz"]))
+            pool = ownm if (ownm and rng.random() < 0.5) else MARKERS + ["ext-info-x", "kex-strict-zz"]
+            l.insert(rng.randrange(len(l) + 1), rng.choice(pool))
         l = [n for n in l if "," not in n]
         lists.append(l)
     return lists
@@ -222,7 +236,10 @@ def make_transport(st, role, cfg):
     for c, attr in (("kex", "kex"), ("keys", "key_types"), ("ciphers", "ciphers"), ("macs", "digests"),
                     ("compression", "compression")):
         if cfg["prefs"][c] is not None:
-            setattr(so, attr, list(cfg["prefs"][c]))
+            if all(n in st["tables"][c] for n in cfg["prefs"][c]):
+                setattr(so, attr, list(cfg["prefs"][c]))
+            else:
+                setattr(t, "_preferred_" + c, tuple(cfg["prefs"][c]))
     for k in cfg["skeys"]:
         t.add_server_key(st["keys"][k])
     if cfg["moduli"]:
@@ -243,6 +260,11 @@ def read_lists(raw):
     from paramiko.message import Message
     m = Message(raw[17:])
     return [m.get_list() for _ in range(8)]
+
+
+def read_own(raw):
+    """Our own advertised lists; an empty name-list is read back by Message.get_list as [""]."""
+    return [[] if l == [""] else l for l in read_lists(raw)]
 
 
 def build_kexinit(lists):
@@ -278,10 +300,11 @@ def drive_parse(st, t, payload):
                    t.local_compression, t.remote_compression])
 
 
-def canon(outcome):
+def coq_outcome(outcome):
+    """The implementation's outcome as a Gallina `result agreement`."""
     if outcome[0] == "ok":
-        return [0] + enc_names(outcome[1])
-    return [1, {"IncompatiblePeer": 2, "KeyError": 7}.get(outcome[1], 1)]
+        return "(Ok (mkAg %s))" % " ".join(cn(n if isinstance(n, str) else "<%r>" % (n,)) for n in outcome[1])
+    return "(Raise %s)" % {"IncompatiblePeer": "IncompatiblePeer", "KeyError": "KeyErr"}.get(outcome[1], "SSHExc")
 
 
 # ---------------------------------------------------------------------------------------------
@@ -294,7 +317,8 @@ def expected_from_messages(role, own, peer):
     client, server = (own, peer) if role == "Client" else (peer, own)
     exp = []
     for i in range(8):
-        c, s = client[i], server[i]
+        # the empty string is what an empty name-list parses to, not an algorithm
+        c, s = [n for n in client[i] if n != ""], [n for n in server[i] if n != ""]
         if i == 0:
             c = [n for n in c if not is_marker(n)]
             s = [n for n in s if not is_marker(n)]
@@ -319,7 +343,13 @@ def check_property(ctx, case, role, mcfg, own, peer, outcome):
     exp = expected_from_messages(role, own, peer)
     empty = [CAT8[i] for i in range(8) if exp[i] is None]
     if outcome[0] == "exc":
-        if outcome[1] != "IncompatiblePeer" or not empty:
+        if (outcome[1] == "IncompatiblePeer" and not empty and role == "Server" and not mcfg["moduli"]
+                and exp[0].startswith(GEX)):
+            ctx.fail("gex-advertised-without-moduli",
+                     "server without a modulus pack lists %s in its KEXINIT but refuses to agree on it "
+                     "(client computes %s, server raises IncompatiblePeer)" % (exp[0], exp[0]),
+                     case=case, expected=to_local_remote(role, exp), observed=outcome[1])
+        elif outcome[1] != "IncompatiblePeer" or not empty:
             ctx.fail("fail-iff", "negotiation raised %s although every category has a common algorithm"
                      % outcome[1] if not empty else "negotiation raised %s instead of IncompatiblePeer" % outcome[1],
                      case=case, expected=to_local_remote(role, exp), observed=outcome[1])
@@ -368,7 +398,7 @@ def run_single(ctx, st, role, cfg, peer_lists, kind, cases_adv, cases_neg, check
     try:
         mcfg = model_cfg(t, cfg)
         t._send_kex_init()
-        own = read_lists(t.local_kex_init)
+        own = read_own(t.local_kex_init)
         if peer_lists is None:
             peer_lists = gen_peer(ctx.rng, st, own)
         payload = build_kexinit(peer_lists)
@@ -383,11 +413,9 @@ def run_single(ctx, st, role, cfg, peer_lists, kind, cases_adv, cases_neg, check
               kind="%s-%s-%s" % (kind, role.lower(), "ok" if outcome[0] == "ok" else outcome[1]))
     check_property(ctx, case, role, mcfg, own, peer, outcome)
     if check_adv:
-        flat = []
-        for l in own:
-            flat += enc_names(l)
-        cases_adv.append(("(%s, %s)" % (role, coq_cfg(mcfg)), flat, case, own))
-    cases_neg.append(("(%s, %s, %s)" % (role, coq_cfg(mcfg), coq_ki(peer)), canon(outcome), case, outcome))
+        cases_adv.append(("(CaseAdv %s %s %s)" % (role, coq_cfg(mcfg), coq_ki(own)), [1], case, own))
+    cases_neg.append(("(CaseNeg %s %s %s %s)" % (role, coq_cfg(mcfg), coq_ki(peer), coq_outcome(outcome)), [1], case,
+                      outcome))
     return mcfg, own, outcome
 
 
@@ -399,7 +427,7 @@ def run_pair(ctx, st, cfg_c, cfg_s, cases_adv, cases_neg, kind="pair"):
         mc, ms = model_cfg(tc, cfg_c), model_cfg(ts, cfg_s)
         tc._send_kex_init()
         ts._send_kex_init()
-        own_c, own_s = read_lists(tc.local_kex_init), read_lists(ts.local_kex_init)
+        own_c, own_s = read_own(tc.local_kex_init), read_own(ts.local_kex_init)
         out_c = drive_parse(st, tc, ts.local_kex_init[1:])
         out_s = drive_parse(st, ts, tc.local_kex_init[1:])
     finally:
@@ -418,12 +446,10 @@ def run_pair(ctx, st, cfg_c, cfg_s, cases_adv, cases_neg, kind="pair"):
             key = "gex-advertised-without-moduli"
         ctx.fail(key, "client and server computed different agreements from each other's KEXINIT",
                  case=case, expected=out_c, observed=out_s)
-    for role, m, own, peer, out in (("Client", mc, own_c, own_s, out_c), ("Server", ms, own_s, own_c, out_s)):
-        flat = []
-        for l in own:
-            flat += enc_names(l)
-        cases_adv.append(("(%s, %s)" % (role, coq_cfg(m)), flat, case, own))
-        cases_neg.append(("(%s, %s, %s)" % (role, coq_cfg(m), coq_ki(peer)), canon(out), case, out))
+    seen_c, seen_s = read_lists(ts.local_kex_init), read_lists(tc.local_kex_init)   # as parsed by the peer
+    for role, m, own, peer, out in (("Client", mc, own_c, seen_c, out_c), ("Server", ms, own_s, seen_s, out_s)):
+        cases_adv.append(("(CaseAdv %s %s %s)" % (role, coq_cfg(m), coq_ki(own)), [1], case, own))
+        cases_neg.append(("(CaseNeg %s %s %s %s)" % (role, coq_cfg(m), coq_ki(peer), coq_outcome(out)), [1], case, out))
     return out_c, out_s
 
 
@@ -470,8 +496,8 @@ def handshake(ctx, st, cfg_c, cfg_s):
         else:
             e = ts.get_exception()
             res["server_exc"] = type(e).__name__ if e is not None else None
-        res["own_c"] = read_lists(tc.local_kex_init) if tc.local_kex_init else None
-        res["own_s"] = read_lists(ts.local_kex_init) if ts.local_kex_init else None
+        res["own_c"] = read_own(tc.local_kex_init) if tc.local_kex_init else None
+        res["own_s"] = read_own(ts.local_kex_init) if ts.local_kex_init else None
     finally:
         tc.close()
         ts.close()
@@ -546,16 +572,17 @@ def check_handshake(ctx, st, cfg_c, cfg_s, kind="handshake"):
 
 def flush_model(ctx, cases_adv, cases_neg):
     imports = "From Coq Require Import ZArith List. Import ListNotations. From PV Require Import C05_gen C05."
-    bad = ctx.model_mismatches("run_advertised", "(role * config)", [(c, e) for c, e, _, _ in cases_adv],
-                               imports=imports)
-    for i in bad[:3]:
-        ctx.disagree("_send_kex_init advertised lists differ from model `advertised`", case=cases_adv[i][2],
-                     impl=cases_adv[i][3])
-    bad = ctx.model_mismatches("run_negotiate", "(role * config * kexinit)", [(c, e) for c, e, _, _ in cases_neg],
-                               imports=imports)
-    for i in bad[:3]:
-        ctx.disagree("_parse_kex_init outcome differs from model `negotiate`", case=cases_neg[i][2],
-                     impl=cases_neg[i][3])
+    allc = [("adv",) + x for x in cases_adv] + [("neg",) + x for x in cases_neg]
+    bad = ctx.model_mismatches("run_case", "ccase", [(c, e) for _, c, e, _, _ in allc], imports=imports, shard=400)
+    nadv = nneg = 0
+    for i in bad:
+        k, _, _, case, impl = allc[i]
+        if k == "adv" and nadv < 3:
+            nadv += 1
+            ctx.disagree("_send_kex_init advertised lists differ from model `advertised`", case=case, impl=impl)
+        elif k == "neg" and nneg < 3:
+            nneg += 1
+            ctx.disagree("_parse_kex_init outcome differs from model `negotiate`", case=case, impl=impl)
     if cases_neg:
         ctx.sample({"negotiate": {"case": cases_neg[0][2], "impl": cases_neg[0][3]}})
     if len(cases_neg) > 7:
@@ -590,6 +617,12 @@ def targeted(ctx, st, cases_adv, cases_neg):
                    [MARKERS[3], kex[-1], MARKERS[1], MARKERS[0], kex[0], MARKERS[2]], ["ext-info-", kex[1]],
                    [kex[3], "kex-strict-"]):
             run_single(ctx, st, role, plain_cfg(sk), [kl] + dflt, "marker", cases_adv, cases_neg)
+        # 2b. the local kex tuple itself names a marker and the peer lists that marker first
+        for mk in MARKERS:
+            run_single(ctx, st, role, plain_cfg(sk, moduli=True, prefs={"kex": [mk] + kex}), [[mk] + kex[::-1]] + dflt,
+                       "marker-in-prefs", cases_adv, cases_neg)
+            run_single(ctx, st, role, plain_cfg(sk, moduli=True, prefs={"kex": kex[:1] + [mk]}),
+                       [[kex[-1], mk, kex[0]]] + dflt, "marker-in-prefs", cases_adv, cases_neg)
         # 3. the peer's order differs from ours in every category
         rev = [kex[::-1]] + [l[::-1] for l in dflt]
         run_single(ctx, st, role, plain_cfg(sk), rev, "reversed", cases_adv, cases_neg)
@@ -627,11 +660,11 @@ def run(ctx):
     cases_adv, cases_neg = [], []
     targeted(ctx, st, cases_adv, cases_neg)
     rng = ctx.rng
-    for _ in range(500 * scale):
+    for _ in range(350 * scale):
         role = "Client" if rng.random() < 0.5 else "Server"
         run_single(ctx, st, role, gen_cfg(rng, role, st), None, "random", cases_adv, cases_neg,
                    check_adv=rng.random() < 0.3)
-    for _ in range(150 * scale):
+    for _ in range(100 * scale):
         run_pair(ctx, st, gen_cfg(rng, "Client", st), gen_cfg(rng, "Server", st), cases_adv, cases_neg)
     flush_model(ctx, cases_adv, cases_neg)
     # real handshakes: the targeted group-exchange pair, then random disabled_algorithms on both sides
